@@ -83,7 +83,7 @@ def descriptor(case, mode):
 def corrupt(jobs, rng, n=60):
     """binding demonstration: expectations that are wrong in one place each"""
     out = []
-    pool = [(j, c) for j in jobs for c in j["cases"] if c[1] and c[2]["k"] in ("eof", "error")]
+    pool = [(j, c) for j in jobs for c in j["cases"] if c[1] and c[2]["k"] in ("eof", "error") and c[3] == c[2]["k"]]   # not the hazard cases
     for j, c in rng.sample(pool, min(n, len(pool))):
         c = json.loads(json.dumps(c))
         kind = rng.randrange(4)
